@@ -1,2 +1,2 @@
-import LimnoriaModel.C05.Drive
-def main : IO Unit := Driver.run C05.handler
+import LimnoriaModel.C05.DriveE2E
+def main : IO Unit := Driver.run EndToEnd.handler
